@@ -33,6 +33,10 @@ from vf import boot, common, pool
 
 PID = "C06"
 BAD_ERRORS = ("import-error", "pyi-error", "attribute-error", "module-attr")
+# a call the oracle built to satisfy the *upstream stub's* signature must be accepted downstream
+CALL_ERRORS = ("missing-parameter", "wrong-arg-count", "wrong-keyword-args", "wrong-arg-types",
+               "not-callable", "duplicate-keyword-argument")
+CALL_KINDS = ("call", "mcall", "vmcall", "instance")
 TRANSPORTS = ("pythonpath", "imports_info", "pickled")
 
 
@@ -51,22 +55,92 @@ def build_downstream(stub, modname, rng, import_style):
     lines = [f"import {modname}"]
     ref = modname
   probes = []
+  typed_values = []          # (variable of B, class of the stub it is declared to hold)
 
   def add(src, probe):
     lines.append(src)
     probe["line"] = len(lines)
     probe["src"] = src
     probes.append(probe)
+    e = probe.get("expect")
+    if e is not None and e[0] == "n" and e[1] in stub.classes and probe["kind"] not in ("class",):
+      typed_values.append((probe["bname"], e[1], probe["kind"]))
 
-  public = lambda n: not n.startswith("_")
+  def skipped(probe, reason):
+    probe["skip"] = str(reason)
+    probe["line"] = None
+    probes.append(probe)
+
+  public = lambda n: not any(part.startswith("_") for part in n.split("."))
+  ident = lambda n: n.replace(".", "_")
+
+  def member_probes(var, cname, tag, akind, mkind):
+    """Attribute reads and method calls on `var`, declared to be an instance of stub class cname."""
+    try:
+      members = sorted(stub.all_members(cname).items())
+    except T.Skip as e:
+      skipped({"kind": akind, "bname": f"{tag}_*", "what": f"{cname} members"}, e)
+      return
+    for member, _ in members:
+      if member.startswith("__"):
+        continue
+      kind, owner, payload = stub.lookup_member(cname, member)
+      if kind == "attr":
+        p = {"kind": akind, "bname": f"{tag}_{member}", "what": f"<{cname}>.{member}"}
+        try:
+          t = stub.N.t(payload)
+          if t[0] == "g" and t[1] == "Annotated" and len(t[2]) == 2 and \
+             t[2][1] in (("c", "'property'"), ("n", "property")):
+            t = t[2][0]
+            p["property"] = True
+          if T.names_in(t) & set(stub.typevars):
+            raise T.Skip("attribute type mentions a TypeVar")
+          p["expect"] = t
+        except T.Skip as e:
+          p["skip"] = str(e)
+        add(f"{tag}_{member} = {var}.{member}", p)
+      elif kind == "method":
+        p = {"kind": mkind, "bname": f"{tag}_{member}", "what": f"<{cname}>.{member}(...)"}
+        try:
+          if len(payload) != 1:
+            raise T.Skip("overloaded method")
+          fn = payload[0]
+          sig = stub.signature(fn)
+          decos = set(sig["decorators"])
+          if decos - {"staticmethod", "classmethod"}:
+            raise T.Skip("decorated method: " + ",".join(sorted(decos)))
+          drop = "staticmethod" not in decos
+          args, binding = T.call_args(stub, fn, drop_first=drop, ref=ref)
+          self_tv = None
+          if drop and sig["params"] and sig["params"][0][2] is not None:
+            st = sig["params"][0][2]
+            if st[0] == "n" and st[1] in stub.typevars and "classmethod" not in decos:
+              self_tv = st[1]
+            else:
+              raise T.Skip("annotated self/cls of another form")
+          p["expect"] = T.result_type(stub, fn, binding, self_type=("n", cname), self_tv=self_tv)
+          add(f"{tag}_{member} = {var}.{member}({args})", p)
+        except T.Skip as e:
+          skipped(p, e)
+
+  # -- constants (+ one element of container-typed ones)
   for name in sorted(stub.consts):
     if public(name):
       p = {"kind": "const", "bname": name, "what": name}
+      t = None
       try:
-        p["expect"] = stub.const_type(name)
+        t = p["expect"] = stub.const_type(name)
       except T.Skip as e:
         p["skip"] = str(e)
       add(f"{name} = {ref}.{name}", p)
+      if t is not None:
+        try:
+          sub, et = T.element_probe(t)
+          add(f"zz_e_{name} = {ref}.{name}{sub}",
+              {"kind": "elem", "bname": f"zz_e_{name}", "what": f"{name}{sub}", "expect": et})
+        except T.Skip:
+          pass
+  # -- functions: re-export + call
   for name in sorted(stub.funcs):
     if not public(name):
       continue
@@ -83,81 +157,42 @@ def build_downstream(stub, modname, rng, import_style):
     if len(defs) == 1:
       p = {"kind": "call", "bname": f"zz_r_{name}", "what": f"{name}(...)"}
       try:
-        args, binding = T.call_args(stub, defs[0], drop_first=False)
+        args, binding = T.call_args(stub, defs[0], drop_first=False, ref=ref)
         p["expect"] = T.result_type(stub, defs[0], binding)
         add(f"zz_r_{name} = {ref}.{name}({args})", p)
       except T.Skip as e:
-        p["skip"] = str(e)
-        p["line"] = None
-        probes.append(p)
-  for name in sorted(stub.classes):
-    if not public(name):
+        skipped(p, e)
+  # -- classes (nested ones by dotted name): re-export, construct, read members
+  for qual in sorted(stub.classes):
+    if not public(qual):
       continue
-    add(f"zz_k_{name} = {ref}.{name}", {"kind": "class", "bname": f"zz_k_{name}", "what": name,
-                                        "expect": ("g", "type", (("n", name),))})
-    ci = stub.classes[name]
-    inst = f"zz_c_{name}"
-    p = {"kind": "instance", "bname": inst, "what": f"{name}(...)"}
+    add(f"zz_k_{ident(qual)} = {ref}.{qual}", {"kind": "class", "bname": f"zz_k_{ident(qual)}", "what": qual,
+                                               "expect": ("g", "type", (("n", qual),))})
+    inst = f"zz_c_{ident(qual)}"
+    p = {"kind": "instance", "bname": inst, "what": f"{qual}(...)"}
     try:
-      mro = stub.mro(name)
-      if any("__new__" in stub.classes[c].methods for c in mro):
-        raise T.Skip("__new__ in the hierarchy")
-      init = stub.lookup_member(name, "__init__")
-      if init is None:
-        args = ""
-      else:
-        if init[0] != "method" or len(init[2]) != 1:
-          raise T.Skip("__init__ is not a single method")
-        args, _ = T.call_args(stub, init[2][0], drop_first=True)
-      p["expect"] = ("n", name)
-      add(f"{inst} = {ref}.{name}({args})", p)
+      src = T.construct(stub, qual, ref)
+      p["expect"] = ("n", qual)
+      add(f"{inst} = {src}", p)
     except T.Skip as e:
-      p["skip"] = str(e)
-      p["line"] = None
-      probes.append(p)
+      skipped(p, e)
       continue
-    for member, mkind in sorted(stub.all_members(name).items()):
-      if member.startswith("__"):
-        continue
-      kind, owner, payload = stub.lookup_member(name, member)
-      if kind == "attr":
-        p = {"kind": "attr", "bname": f"zz_at_{name}_{member}", "what": f"{name}().{member}"}
-        try:
-          t = stub.N.t(payload)
-          if t[0] == "g" and t[1] == "Annotated" and len(t[2]) == 2 and t[2][1] in (("c", "'property'"), ("n", "property")):
-            t = t[2][0]
-            p["property"] = True
-          if T.names_in(t) & set(stub.typevars):
-            raise T.Skip("attribute type mentions a TypeVar")
-          p["expect"] = t
-        except T.Skip as e:
-          p["skip"] = str(e)
-        add(f"zz_at_{name}_{member} = {inst}.{member}", p)
-      elif kind == "method":
-        p = {"kind": "mcall", "bname": f"zz_m_{name}_{member}", "what": f"{name}().{member}(...)"}
-        try:
-          if len(payload) != 1:
-            raise T.Skip("overloaded method")
-          fn = payload[0]
-          sig = stub.signature(fn)
-          decos = set(sig["decorators"])
-          if decos - {"staticmethod", "classmethod"}:
-            raise T.Skip("decorated method: " + ",".join(sorted(decos)))
-          drop = "staticmethod" not in decos
-          args, binding = T.call_args(stub, fn, drop_first=drop)
-          self_tv = None
-          if drop and sig["params"] and sig["params"][0][2] is not None:
-            st = sig["params"][0][2]
-            if st[0] == "n" and st[1] in stub.typevars and "classmethod" not in decos:
-              self_tv = st[1]
-            else:
-              raise T.Skip("annotated self/cls of another form")
-          p["expect"] = T.result_type(stub, fn, binding, self_type=("n", name), self_tv=self_tv)
-          add(f"zz_m_{name}_{member} = {inst}.{member}({args})", p)
-        except T.Skip as e:
-          p["skip"] = str(e)
-          p["line"] = None
-          probes.append(p)
+    member_probes(inst, qual, f"zz_m_{ident(qual)}", "attr", "mcall")
+  # -- values B only *reads* from A (declared types): members of what they are declared to hold.
+  #    (nested classes first; capped to keep B small)
+  first_round = [tv for tv in typed_values if tv[2] != "instance"]
+  first_round.sort(key=lambda tv: (0 if "." in tv[1] else 1, tv[0]))
+  budget = 14
+  seen_cls_kind = set()
+  for var, cname, kind in first_round:
+    key = (cname, kind)
+    if key in seen_cls_kind:
+      continue
+    seen_cls_kind.add(key)
+    if budget <= 0:
+      break
+    budget -= 1
+    member_probes(var, cname, f"zz_v_{var}", "vattr", "vmcall")
   return "\n".join(lines) + "\n", probes
 
 
@@ -281,6 +316,7 @@ def judge(stub_a, probes, b_results, modname):
     counts[k] = counts.get(k, 0) + n
 
   classes = set(stub_a.classes)
+  foreign = stub_a.toplevel_classes()
   ref_t = TRANSPORTS[0]
   # 1. transports agree
   base_pyi, base_err = b_results[ref_t]
@@ -307,9 +343,13 @@ def judge(stub_a, probes, b_results, modname):
       cnt("downstream_errors_seen:" + name)
       if name in BAD_ERRORS and line == 1:
         import_broken = True
+      probe = next((p for p in probes if p.get("line") == line), None)
+      if name in CALL_ERRORS and probe is not None and probe["kind"] in CALL_KINDS:
+        cnt("bad_errors")
+        vio.append((f"downstream [{name}] on a {probe['kind']} probe whose arguments satisfy the upstream stub",
+                    {"transport": tname, "error": [name, line, msg], "probe": _pub(probe)}))
       if name in BAD_ERRORS:
         cnt("bad_errors")
-        probe = next((p for p in probes if p.get("line") == line), None)
         vio.append((f"downstream [{name}] on {probe['kind'] if probe else 'import'} probe: "
                     f"{_msg_skeleton(msg, classes, modname)}",
                     {"transport": tname, "error": [name, line, msg], "probe": _pub(probe)}))
@@ -321,7 +361,7 @@ def judge(stub_a, probes, b_results, modname):
       cnt("not_judged:all probes of a transport whose import line failed (reported once as the import error)")
       continue
     try:
-      sb = T.Stub(pyi, prefixes={modname, modname.rsplit(".", 1)[-1]}, foreign=classes)
+      sb = T.Stub(pyi, prefixes={modname, modname.rsplit(".", 1)[-1]}, foreign=foreign)
     except SyntaxError as e:
       cnt("not_judged:downstream stub not parseable by ast")
       continue
@@ -411,7 +451,9 @@ def judge(stub_a, probes, b_results, modname):
   return vio, counts
 
 
-_KIND_TEXT = {"const": "constant", "class": "re-exported class", "instance": "constructor call result",
+_KIND_TEXT = {"elem": "container element", "vattr": "attribute read on a value read from the stub",
+              "vmcall": "method call on a value read from the stub",
+              "const": "constant", "class": "re-exported class", "instance": "constructor call result",
               "attr": "attribute read", "mcall": "method call result", "call": "function call result"}
 
 
@@ -476,13 +518,15 @@ def _msg_skeleton(msg, classes, modname):
 
 def one_case(seed, i, root_base):
   """Full pipeline for upstream #i.  Returns a result dict."""
-  from vf.gen import programs
-  from vf.oracle import c06_types as T
+  from vf.gen import programs, c06_features
   rng = random.Random(f"C06-{seed}-{i}")
-  a_src = programs.generate(rng)
+  feature = i % 5 == 4       # every fifth upstream is a feature program (vf/gen/c06_features.py)
+  a_src = c06_features.generate(rng) if feature else programs.generate(rng)
   modname = "a" if i % 2 == 0 else "pkg.sub.a"
   import_style = "from" if (i // 2) % 2 else "import"
-  return run_case(a_src, modname, import_style, rng, os.path.join(root_base, str(i)))
+  r = run_case(a_src, modname, import_style, rng, os.path.join(root_base, str(i)))
+  r["arm"] = "feature" if feature else "C01"
+  return r
 
 
 def run_case(a_src, modname, import_style, rng, root):
@@ -557,6 +601,7 @@ def child(arg):
       out["n"] += 1
       c["upstreams:" + r["modname"] + "/" + r["import_style"]] = \
           c.get("upstreams:" + r["modname"] + "/" + r["import_style"], 0) + 1
+      c["upstreams from the " + r["arm"] + " generator"] = c.get("upstreams from the " + r["arm"] + " generator", 0) + 1
       for k, n in r["counts"].items():
         c[k] = c.get(k, 0) + n
       if r["nontrivial"]:
@@ -580,7 +625,9 @@ def child(arg):
 def run(tier, seed):
   ck = common.Check(
       PID, tier, seed,
-      rule=("upstream programs from the C01 generator with >= 3 public names, alternately analysed as module "
+      rule=("upstream programs (4 of 5 from the C01 generator, every fifth a feature program: keyword-only "
+            "parameters in every default/required order, positional-only, *args/**kw, nested classes two levels "
+            "deep, class-valued attributes, values typed by nested classes) with >= 3 public names, alternately analysed as module "
             "`a` and `pkg.sub.a`; the downstream module re-exports every public name and probes constructor "
             "calls, attribute reads along the stub MRO, method and function calls with ground arguments; "
             "analysed with the stub on --pythonpath, via --imports_info, and as pickled AST. evaluations = "
@@ -588,9 +635,9 @@ def run(tier, seed):
             "has a class with attributes, a parameterised container type and a function with a non-Any return; "
             "distinct by hash of the upstream source."))
   if tier == "quick":
-    n, per = 128, 8
+    n, per = 160, 10       # 128 C01-generator upstreams + 32 feature programs
   else:
-    n, per = 1200, 15
+    n, per = 1500, 15
   if os.environ.get("VERIF_C06_N"):           # development aid only
     n = int(os.environ["VERIF_C06_N"])
     per = max(1, n // 16)
